@@ -7,5 +7,8 @@ if ! git diff --quiet; then echo "/repo is dirty, refusing"; exit 2; fi
 git apply "$patch" || { echo "patch does not apply"; exit 2; }
 cd /verif && ./check "$pid" --tier "$tier"; rc=$?
 git -C /repo checkout -- . 
+# the check regenerated Gen/*.lean from the mutated tree: restore the committed (clean-tree) data so that
+# nothing stale is left behind for `lake build` of the root or for a later commit
+git -C /verif checkout -- lean/UflVerif/Gen
 echo "[try_mut] $patch -> exit $rc"
 exit $rc
